@@ -113,15 +113,10 @@ def category_rule(rep, prog, oks):
                 if l.atoms != frozenset(range(37, 40)) or not is_identity(l, 37, 40):
                     rep.violation("R4", "Identification.ca:slice", "category field reads %s, expected f[37..40) verbatim" % rng_str(l.atoms))
     rep.floor("category fields", 2, found)
-    # Display of TypeCoding: variant -> letter
-    crate = prog.crates["adsb_deku"]
-    words = {}
-    for s in crate.format_sites:
-        if len(s["item"]) >= 2 and s["item"][-1] == "fmt" and s["item"][-2].endswith("Display for TypeCoding"):
-            for a in s["args"]:
-                import re
-                for m in re.finditer(r"Self::(\w+)\s*=>\s*\"([^\"]*)\"", a["expr"]):
-                    words[m.group(1)] = m.group(2)
+    # Display of TypeCoding: variant -> letter (the Display impl is interpreted on each variant)
+    from . import c11
+    got = c11.enum_words(prog, "adsb_deku::adsb::TypeCoding")
+    words = {k: (v[0] if v and len(v) == 1 else v) for k, v in (got or {}).items()}
     rep.instance(rid, "display", sample={"words": words})
     if words != {"D": "D", "C": "C", "B": "B", "A": "A"}:
         rep.violation("R4", "TypeCoding:display", "TypeCoding is displayed as %s, expected each variant by its own letter" % words)
